@@ -108,32 +108,39 @@ where
         }
     }
 
+    // Returns Ok(true) when the connection has been closed gracefully and run() must return.
     async fn handle_message(
         tx: &mut TxPacketStream<TxStreamT>,
         connection: &mut Connection,
         session: &mut Session,
         msg: ContextMessage,
-    ) -> Result<(), MqttError> {
+    ) -> Result<bool, MqttError> {
         match msg {
             ContextMessage::FireAndForget(msg) => {
                 if let Err(err) = Self::validate_packet_size(connection, msg.packet.as_ref()) {
                     msg.response_channel
                         .send(Err(err))
                         .map_err(|_| InternalError::from(ERRMSG_HANDLE_DROPPED))?;
-                    return Ok(());
+                    return Ok(false);
                 }
+
+                let is_disconnect =
+                    msg.packet.first().map(|hdr| hdr >> 4) == Some(DisconnectTx::PACKET_ID);
 
                 tx.write(msg.packet.freeze().as_ref()).await?;
                 msg.response_channel
                     .send(Ok(()))
                     .map_err(|_| InternalError::from(ERRMSG_HANDLE_DROPPED))?;
+
+                // Nothing may follow the DISCONNECT packet.
+                return Ok(is_disconnect);
             }
             ContextMessage::AwaitAck(mut msg) => {
                 if let Err(err) = Self::validate_packet_size(connection, msg.packet.as_ref()) {
                     msg.response_channel
                         .send(Err(err))
                         .map_err(|_| InternalError::from(ERRMSG_HANDLE_DROPPED))?;
-                    return Ok(());
+                    return Ok(false);
                 }
 
                 let packet_id = msg.packet.first().unwrap() >> 4; // Extract packet id, being the four MSB bits
@@ -143,7 +150,7 @@ where
                         msg.response_channel
                             .send(Err(QuotaExceeded.into()))
                             .map_err(|_| InternalError::from(ERRMSG_HANDLE_DROPPED))?;
-                        return Ok(());
+                        return Ok(false);
                     }
 
                     connection.send_quota -= 1;
@@ -181,7 +188,7 @@ where
                     msg.response_channel
                         .send(Err(err))
                         .map_err(|_| InternalError::from(ERRMSG_HANDLE_DROPPED))?;
-                    return Ok(());
+                    return Ok(false);
                 }
 
                 session
@@ -195,7 +202,7 @@ where
             }
         }
 
-        Ok(())
+        Ok(false)
     }
 
     async fn ack<'a, ReasonT>(
@@ -218,12 +225,13 @@ where
         Ok(())
     }
 
+    // Returns Ok(true) when the connection has been closed gracefully and run() must return.
     async fn handle_packet(
         tx: &mut TxPacketStream<TxStreamT>,
         connection: &mut Connection,
         session: &mut Session,
         packet: RxPacket,
-    ) -> Result<(), MqttError> {
+    ) -> Result<bool, MqttError> {
         match packet {
             RxPacket::Publish(publish) => {
                 let qos = publish.qos;
@@ -263,7 +271,7 @@ where
             }
             RxPacket::Disconnect(disconnect) => {
                 if disconnect.reason == DisconnectReason::Success {
-                    return Ok(()); // Graceful disconnection.
+                    return Ok(true); // Graceful disconnection.
                 }
 
                 return Err(disconnect.into());
@@ -353,7 +361,7 @@ where
             }
         }
 
-        Ok(())
+        Ok(false)
     }
 
     fn handle_connack(connection: &mut Connection, connack: &ConnackRx) {
@@ -582,11 +590,15 @@ where
             futures::select! {
                 maybe_rx_packet = pck_fut => {
                     let rx_packet = maybe_rx_packet.ok_or(SocketClosed)?;
-                    Self::handle_packet(tx, connection, session, rx_packet?).await?;
+                    if Self::handle_packet(tx, connection, session, rx_packet?).await? {
+                        return Ok(());
+                    }
                     pck_fut = rx.next().fuse();
                 },
                 maybe_msg = msg_fut => {
-                    Self::handle_message(tx, connection, session, maybe_msg.ok_or(HandleClosed)?).await?;
+                    if Self::handle_message(tx, connection, session, maybe_msg.ok_or(HandleClosed)?).await? {
+                        return Ok(());
+                    }
                     msg_fut = message_queue.next();
                 }
             }
